@@ -28,7 +28,7 @@ if [ ! -f "$OUT/libsp.a" ]; then
   ar rcs "$OUT.tmp/libsp.a" "$OUT.tmp"/*.o
   echo "$COMMON $FLAGS" > "$OUT.tmp/flags"
   rm -rf "$OUT"; mv "$OUT.tmp" "$OUT"
-  # keep only the 3 most recent builds of this flavour
-  ls -dt "$VERIF"/.build/$FLAVOUR-* 2>/dev/null | tail -n +4 | xargs -r rm -rf
+  # keep only the 15 most recent builds of this flavour (several trees may be checked at the same time)
+  ls -dt "$VERIF"/.build/$FLAVOUR-* 2>/dev/null | tail -n +16 | xargs -r rm -rf
 fi
 echo "$OUT"
